@@ -21,4 +21,4 @@ for c in "$@"; do
 done
 if [ -n "${VIA_COPY:-}" ]; then rm -rf $TREE; else git -C /repo checkout -- .; fi
 rm -f /verif/replays/*.json
-git -C /verif checkout -- evidence coq/Model/Schemas.v coq/Model/UnitTable.v 2>/dev/null
+git -C /verif checkout -- evidence coq/Model/Schemas.v coq/Model/UnitTable.v coq/Model/Enums.v 2>/dev/null
